@@ -78,7 +78,7 @@ func raceOracle(cfg *vh.Config, res *vh.Result, rounds int, caseBase int) (int, 
 			return 0, err
 		}
 		timer := time.AfterFunc(time.Duration(60+rounds/5)*time.Second, func() { _ = cmd.Process.Kill() })
-		last, ended := start, false
+		last, ended, hung := start, false, false
 		sc := bufio.NewScanner(stdout)
 		sc.Buffer(make([]byte, 1<<20), 1<<24)
 		for sc.Scan() {
@@ -105,6 +105,18 @@ func raceOracle(cfg *vh.Config, res *vh.Result, rounds int, caseBase int) (int, 
 				res.Fail(vh.Failure{Case: caseBase + last, Stream: "goroutines", Sig: sig,
 					Clause: "each call returns the same result it returns when run alone", Input: f, Got: string(got), Want: string(want)})
 			}
+			if v, ok := m["hang"]; ok {
+				// the worker's watchdog: goroutines were running and no call completed for several seconds
+				var h map[string]any
+				_ = json.Unmarshal(v, &h)
+				hung = true
+				h["seed"] = cfg.Seed
+				h["how"] = fmt.Sprintf("harness/cmd/run_conc/worker -seed %d -start %d -rounds %d (go build -race ./cmd/run_conc/worker)", cfg.Seed, last, last+1)
+				blocked, _ := json.Marshal(h["blocked"])
+				res.Count("race:hang")
+				res.Fail(vh.Failure{Case: caseBase + last, Stream: "goroutines", Sig: "C10 concurrent calls on one codec stop returning: goroutines blocked for good (deadlock)",
+					Clause: "concurrent calls complete without deadlock", Input: h, Got: string(blocked)})
+			}
 			if v, ok := m["end"]; ok {
 				ended = true
 				_ = v
@@ -130,6 +142,8 @@ func raceOracle(cfg *vh.Config, res *vh.Result, rounds int, caseBase int) (int, 
 		switch {
 		case ended:
 			start = rounds
+		case hung:
+			start = last + 1
 		case timedOut:
 			res.Count("race:timeout")
 			res.Fail(vh.Failure{Case: caseBase + last, Stream: "goroutines", Sig: "C10 concurrent first use: worker does not finish (deadlock)",
